@@ -10,6 +10,7 @@ Section NodeInd.
   Hypothesis HL : forall r p, P (NLeaf r p).
   Hypothesis HO : forall cid ch, Forall P ch -> P (NObj cid ch).
   Hypothesis HI : forall items, Forall P items -> P (NList items).
+  Hypothesis HD : forall items, Forall P (map snd items) -> P (NDict items).
   Fixpoint node_ind' (n: node) : P n :=
     match n with
     | NLeaf r p => HL r p
@@ -17,6 +18,10 @@ Section NodeInd.
                                    match l with [] => Forall_nil P | x :: r => Forall_cons x (node_ind' x) (go r) end) ch)
     | NList items => HI items ((fix go (l: list node) : Forall P l :=
                                   match l with [] => Forall_nil P | x :: r => Forall_cons x (node_ind' x) (go r) end) items)
+    | NDict items => HD items ((fix go (l: list (string * node)) : Forall P (map snd l) :=
+                                  match l with
+                                  | [] => Forall_nil P
+                                  | kx :: r => Forall_cons (snd kx) (node_ind' (snd kx)) (go r) end) items)
     end.
 End NodeInd.
 
@@ -43,6 +48,13 @@ Fixpoint go_items (f: node -> option fval) (l: list node) : option (list pv) :=
   | x :: r => match f x, go_items f r with
               | Some v, Some t => Some (snd v :: t)
               | _, _ => None end end.
+
+Fixpoint go_entries (f: node -> option fval) (l: list (string * node)) : option (list (string * pv)) :=
+  match l with
+  | [] => Some []
+  | (k, x) :: r => match f x, go_entries f r with
+                   | Some v, Some t => Some ((k, snd v) :: t)
+                   | _, _ => None end end.
 
 Section Table.
   Variable ct : list cls.
@@ -94,6 +106,22 @@ Section Table.
     rewrite Hg. reflexivity.
   Qed.
 
+  Lemma pack_h_dict spec items members outer avail pd :
+    pack_h spec (NDict items) members outer avail pd =
+    match go_entries (fun x => pack_h spec x members outer avail pd) items with
+    | Some l => Some (POpq (S (List.length items)), PDict l)
+    | None => None end.
+  Proof.
+    cbn [OptNested.pack_h].
+    match goal with |- match ?g1 with _ => _ end = match ?g2 with _ => _ end => assert (Hg: g1 = g2) end.
+    { induction items as [|[k x] r IH]; cbn; [reflexivity | rewrite IH; reflexivity]. }
+    rewrite Hg. reflexivity.
+  Qed.
+
+  Lemma ok_h_dict items members outer avail pd :
+    ok_h (NDict items) members outer avail pd = forallb (fun kx => ok_h (snd kx) members outer avail pd) items.
+  Proof. cbn [OptNested.ok_h]. induction items as [|[k x] r IH]; cbn; [reflexivity | rewrite IH; reflexivity]. Qed.
+
   Lemma ok_h_obj cid ch members outer avail pd :
     ok_h (NObj cid ch) members outer avail pd =
     match nth_error ct cid, pick true outer members cid, pick false outer members cid with
@@ -134,7 +162,8 @@ Section Table.
   Lemma pick_true_both outer members cid fl :
     pick true outer members cid = Some fl -> exists x, fl = both outer x.
   Proof.
-    unfold OptNested.pick, pick_spec. destruct nailed; destruct (existsb _ _); try discriminate; intros H; inversion H.
+    unfold OptNested.pick, pick_spec. destruct nailed; [destruct (conforms _ _ _) | destruct (existsb _ _)];
+      try discriminate; intros H; inversion H.
     - eexists; reflexivity.
     - exists no_flags. destruct outer as [o1 o2 o3 o4]. unfold both, no_flags. cbn. now rewrite !andb_false_r.
   Qed.
@@ -163,7 +192,7 @@ Section Table.
     ok_h n members outer a2 pd = true ->
     pack_h false n members outer a1 pd = pack_h true n members outer a2 pd.
   Proof.
-    induction n as [raw packed | cid ch IH | items IH] using node_ind'; intros members outer a1 a2 pd Ha Hok.
+    induction n as [raw packed | cid ch IH | items IH | items IH] using node_ind'; intros members outer a1 a2 pd Ha Hok.
     - reflexivity.
     - rewrite !pack_h_obj. rewrite ok_h_obj in Hok.
       destruct (nth_error ct cid) as [c|]; [|discriminate].
@@ -200,6 +229,14 @@ Section Table.
         inversion IH as [|? ? IHx IHrest]; subst.
         rewrite (IHx members outer a1 a2 pd Ha Hx), (IHr IHrest Hrest). reflexivity. }
       rewrite Hgo. reflexivity.
+    - rewrite !pack_h_dict. rewrite ok_h_dict in Hok.
+      assert (Hgo: go_entries (fun x => pack_h false x members outer a1 pd) items
+                   = go_entries (fun x => pack_h true x members outer a2 pd) items).
+      { induction items as [|[k x] r IHr]; cbn in *; [reflexivity|].
+        apply andb_true_iff in Hok. destruct Hok as [Hx Hrest].
+        inversion IH as [|? ? IHx IHrest]; subst.
+        rewrite (IHx members outer a1 a2 pd Ha Hx), (IHr IHrest Hrest). reflexivity. }
+      rewrite Hgo. reflexivity.
   Qed.
 
   (* no leak: a nested class that enabled none of the keyword flags receives no keyword
@@ -213,7 +250,7 @@ Section Table.
   Proof.
     intros Hf out a0. unfold OptNested.pick. destruct nailed.
     - exists (both out no_flags). split; [|apply restrict_no_flags]. destruct spec.
-      + unfold pick_spec. cbn. rewrite Nat.eqb_refl. cbn. now rewrite Hf.
+      + unfold pick_spec, conforms. destruct (List.length ct); cbn; rewrite Nat.eqb_refl; cbn; now rewrite Hf.
       + cbn. rewrite Hf. destruct out as [o1 o2 o3 o4]. unfold both, no_flags, subflags. cbn.
         now rewrite !andb_false_r.
     - exists no_flags. cbn. rewrite Nat.eqb_refl. cbn. split; reflexivity.
@@ -330,9 +367,9 @@ Definition fld (n: string) : fplan :=
   {| p_name := n; p_alias := None; p_ty := TyOptional; p_trivial := true; p_default := DVal PNone; p_omit := false |}.
 Definition d8b_ct : list cls :=
   [ {| c_mixin := true; c_cfgd := None; c_cfg := ns_unset; c_sort := false; c_flags := fl_on;      (* 0: Outer(u: Union[A, B]) *)
-       c_fields := [({| p_name := "u"; p_alias := None; p_ty := TyPlain; p_trivial := false; p_default := DNo; p_omit := false |}, [1; 2])] |};
-    {| c_mixin := true; c_cfgd := None; c_cfg := ns_unset; c_sort := false; c_flags := fl_none; c_fields := [(fld "a", [])] |};   (* 1: A *)
-    {| c_mixin := true; c_cfgd := None; c_cfg := ns_unset; c_sort := false; c_flags := fl_on; c_fields := [(fld "b", [])] |} ]%nat.  (* 2: B *)
+       c_fields := [({| p_name := "u"; p_alias := None; p_ty := TyPlain; p_trivial := false; p_default := DNo; p_omit := false |}, [1; 2])]; c_parent := None |};
+    {| c_mixin := true; c_cfgd := None; c_cfg := ns_unset; c_sort := false; c_flags := fl_none; c_fields := [(fld "a", [])]; c_parent := None |};   (* 1: A *)
+    {| c_mixin := true; c_cfgd := None; c_cfg := ns_unset; c_sort := false; c_flags := fl_on; c_fields := [(fld "b", [])]; c_parent := None |} ]%nat.  (* 2: B *)
 Definition d8b_inst : node := NObj 0 [NObj 2 [NLeaf PNone PNone]].
 Definition d8b_kw : kwv := {| kw_on := Some true; kw_ba := None; kw_dl := None |}.
 
@@ -362,4 +399,27 @@ Theorem codec_partial : forall ct n cid dd,
   ok_h ct false n [cid] root_flags no_kw dd = true -> to_dict_codec ct false n cid dd = to_dict_codec ct true n cid dd.
 Proof.
   intros ct n cid dd Hok. unfold to_dict_codec. now rewrite (nested_project ct false n [cid] root_flags no_kw no_kw dd eq_refl Hok).
+Qed.
+
+(* ---- a field of type A holding an instance of the subclass B(A) that enabled the omit_none flag:
+   the call names the flags of the DECLARED class, so B never receives omit_none ---- *)
+Definition sub_ct : list cls :=
+  [ {| c_mixin := true; c_cfgd := None; c_cfg := ns_unset; c_sort := false; c_flags := fl_on;      (* 0: Outer(x: A) *)
+       c_fields := [({| p_name := "x"; p_alias := None; p_ty := TyPlain; p_trivial := false; p_default := DNo; p_omit := false |}, [1])];
+       c_parent := None |};
+    {| c_mixin := true; c_cfgd := None; c_cfg := ns_unset; c_sort := false; c_flags := fl_none; c_fields := [(fld "a", [])]; c_parent := None |};
+    {| c_mixin := true; c_cfgd := None; c_cfg := ns_unset; c_sort := false; c_flags := fl_on;
+       c_fields := [(fld "a", []); (fld "b", [])]; c_parent := Some 1 |} ]%nat.
+Definition sub_inst : node := NObj 0 [NObj 2 [NLeaf PNone PNone; NLeaf PNone PNone]].
+
+Lemma sub_impl : to_dict_h sub_ct false sub_inst 0 d8b_kw = Some (PDict [("x", PDict [("a", PNone); ("b", PNone)])]).
+Proof. reflexivity. Qed.
+Lemma sub_spec : to_dict_h sub_ct true sub_inst 0 d8b_kw = Some (PDict [("x", PDict [])]).
+Proof. reflexivity. Qed.
+
+Theorem subclass_flags_refuted : ~ nested_full_statement.
+Proof.
+  intros H. specialize (H sub_ct sub_inst 0%nat d8b_kw). rewrite sub_impl, sub_spec in H.
+  assert (E: Some (PDict [("x", PDict [("a", PNone); ("b", PNone)])]) = Some (PDict [("x", PDict [])])) by (apply H; discriminate).
+  discriminate E.
 Qed.
